@@ -20,18 +20,23 @@ import (
 func init() {
 	props.Register(&props.Prop{
 		ID: "C09",
-		Explanation: "Marching cubes, decided on source. TAB-1..5: the 256-row case table, the two edge→corner tables and the per-corner lists " +
-			"are read from the type-checked AST / SSA of modeling/marching and evaluated exhaustively (256 cases × 6 faces): edges join corners " +
-			"differing in one axis of the code's own corner layout; every row's triangles use exactly the sign-changing edges, no directed edge " +
-			"twice, every open edge lies on one cube face, the open segments on a face are a function of that face's four signs and the opposite " +
-			"face under the same signs carries the reversed set (so any two face-adjacent cells close against each other); orientation is outward " +
-			"for the polarity, bit assignment and emission order the code actually uses. TAB-4: the per-corner lists (positions, sample index " +
-			"offsets, neighbour block positions, increments) enumerate the corners in the order the tables assume. PAIR-1/SYM-ALG: every emitted " +
-			"vertex is the affine interpolant of the two corners of one edge entry. AXIS-1/2, XB-*: x/y/z components reach index(), VectorInt{} and " +
-			"vector3.New in axis order, the cross-block fetch pairs each axis with itself. SYM-STRIDE: index() is a bijection onto the S³ cells of a " +
-			"block and every S in the code agrees. PAD-1: the domain is padded by one cell on each side on all axes. WELD-1/SHARE-1: vertices are shared " +
-			"by position inside a block and the per-block meshes are welded. Not decided: geometric closeness for non-linear fields, decimal rounding " +
-			"merging distinct vertices at high resolution, degenerate triangles when a sample equals the threshold, numeric volume.",
+		Explanation: "Marching cubes, decided on source. TAB-0..5: the 256-row case table, the two edge→corner tables and the per-corner lists " +
+			"are read from the type-checked AST / SSA of modeling/marching (never written outside their initialisers) and evaluated exhaustively " +
+			"(256 cases × 6 faces, for each function that walks the table): edges join corners differing in one axis of the code's own corner " +
+			"layout; every row's triangles use exactly the sign-changing edges, no directed edge twice, every open edge lies on one cube face, the " +
+			"open segments on a face are a function of that face's four signs and the opposite face under the same signs carries the reversed set " +
+			"(any two face-adjacent cells close against each other); orientation is outward for the polarity, bit assignment and emission order the " +
+			"code actually uses; POL-1: a sample equal to the threshold is outside (zero-filled blocks, threshold 0). TAB-4: positions, sample index " +
+			"offsets, neighbour block flags and increments enumerate the corners in the order the tables assume. PAIR-1/SYM-ALG: every emitted vertex " +
+			"is the affine interpolant of the two corners of one edge entry (rational-function identity). AXIS-1/2: x/y/z components reach index(), " +
+			"VectorInt{} and vector3.New in axis order on the AddField+March path. XB-1..7: the corner fetch across block boundaries pairs each axis " +
+			"with itself, selects the neighbour exactly on the last cell, skips a cell only when a neighbour is missing. SYM-STRIDE: index() is a " +
+			"bijection onto the S³ cells of a block and every S in the code agrees; writer and reader place a sample at the same world cell. " +
+			"CHUNK-1/RANGE-1/2/ALLOC-1: floor-division block coordinates, per-block clamps and the block list cover exactly the padded domain; the " +
+			"block allocator is a correct lookup-or-add. PAD-1/2: one padding cell on each side on all axes. MERGE-1/WELD-1/SHARE-1/SCALE-1: vertices " +
+			"shared by position in a block, all blocks merged, welded on the marched attribute, scaled by the sampling factor. Not decided: geometric " +
+			"closeness for non-linear fields, decimal rounding merging distinct vertices at high resolution, degenerate triangles when a sample equals " +
+			"the threshold, whether a shape's declared domain really contains its inside, numeric volume, the parallel variants (C10).",
 		Assumptions: []string{
 			"EliCDavis/vector's Add/Sub/Scale/DivByConstant/Lerp/Midpoint act component-wise (taken from the published API, not re-derived)",
 			"real arithmetic: the interpolant identity is decided over the rationals, not over float64",
@@ -50,18 +55,21 @@ type ctlOutcome struct {
 
 func run(c *props.Ctx) {
 	funcsCache = map[*ssa.Package][]*ssa.Function{}
-	t := loadTables(c)
-	if t == nil {
+	sp := c.P.SSAPkg(pkgRel)
+	if sp == nil {
+		c.R.Failf("anchor package %s not found", pkgRel)
 		return
 	}
-	sp := c.P.SSAPkg(pkgRel)
-	tab0(c, t, sp)
-
 	// the C09 path: what AddField / March reach inside the package
 	path := c09Path(c, sp)
 	if path == nil {
 		return
 	}
+	t := loadTables(c, path)
+	if t == nil {
+		return
+	}
+	tab0(c, t, sp)
 
 	sites := findSites(c, t)
 	onPath := 0
@@ -127,13 +135,21 @@ func run(c *props.Ctx) {
 	c.R.Floor("PAIR-1", 3)
 	c.R.Floor("SYM-ALG", 3)
 	c.R.Floor("AXIS-1", 100)
-	c.R.Floor("AXIS-2", 3)
-	c.R.Floor("SYM-STRIDE", 6)
+	c.R.Floor("AXIS-2", 2)
+	c.R.Floor("SYM-STRIDE", 5)
 	c.R.Floor("PAD-1", 6)
 	c.R.Floor("XB-1", 3)
 	c.R.Floor("XB-2", 3)
 	c.R.Floor("XB-3", 8)
 	c.R.Floor("XB-5", 3)
+	c.R.Floor("XB-6", 1)
+	c.R.Floor("XB-7", 2)
+	c.R.Floor("POL-1", 1)
+	c.R.Floor("CHUNK-1", 2)
+	c.R.Floor("RANGE-1", 8)
+	c.R.Floor("RANGE-2", 3)
+	c.R.Floor("ALLOC-1", 1)
+	c.R.Floor("SCALE-1", 1)
 	c.R.Floor("WELD-1", 1)
 	c.R.Floor("SHARE-1", 1)
 	c.R.Floor("MERGE-1", 1)
@@ -143,11 +159,11 @@ func run(c *props.Ctx) {
 // TAB-0: the tables are what their initialisers say (never written elsewhere)
 
 func tab0(c *props.Ctx, t *tables, sp *ssa.Package) {
-	globals := map[*ssa.Global]string{t.gTri: "triangulation", t.gA: "cornerIndexAFromEdge", t.gB: "cornerIndexBFromEdge"}
+	globals := map[*ssa.Global]string{t.gTri: t.gTri.Name(), t.gA: t.gA.Name(), t.gB: t.gB.Name()}
 	bad := map[*ssa.Global]string{}
 	badPos := map[*ssa.Global]token.Pos{}
 	reads := map[*ssa.Global]int{}
-	for _, fn := range c.P.FuncsOf(sp) {
+	for _, fn := range sortedFuncs(c, sp) {
 		if c.P.IsControl(fn.Pos()) {
 			continue
 		}
